@@ -65,7 +65,8 @@ def signature_rules(r, lib, R):
     allowed = set()
     for path, f in sorted(lib.fns.items()):
         tys = [t.get("s", "") for t in f["inputs"]] + [f["output"].get("s", "")]
-        if not any("options::Options" in t or "options::SortBy" in t for t in tys):
+        carriers = getattr(R, "carriers", set()) if R is not None else set()
+        if not any("options::Options" in t or "options::SortBy" in t or any(c in t for c in carriers) for t in tys):
             continue
         kind = None
         if f.get("impl_self", {}).get("adt") == "options::Options":
@@ -96,6 +97,8 @@ def signature_rules(r, lib, R):
                 if cs.node["callee"].get("path") == R.body.name:
                     t = strip(term_of(e, cs.node["args"][R.opt_arg - 1]))
                     ok = t[0] == "arg"
+                    if not ok and t[0] == "agg" and t[1] in getattr(R, "carriers", ()):
+                        ok = any(strip(v)[0] == "arg" and "options::Options" in e.local_ty(strip(v)[1]).get("s", "") for v in t[3].values())
                     r.ob("R10.1.entry-forwards-options", e.name, ok, "the public entry passes its &Options through unchanged" if ok else
                          "the public entry passes %s" % term_s(t), site=cs, key="R10.1|forward|%s" % e.name)
 
@@ -357,8 +360,11 @@ def _contains_site(t, site, stop_at_format=False):
 
 def _is_field_of_options(t, field):
     t = strip(t)
-    return t[0] == "proj" and t[1][0] == "arg" and [e[3] for e in t[2] if e != "*" and e[0] == "f"] == [field] and \
-        any(e != "*" and e[0] == "f" and e[1] == "options::Options" for e in t[2])
+    if t[0] != "proj":
+        return False
+    fs = [e for e in t[2] if e != "*" and e[0] == "f"]
+    # directly through the parameter, or through a context struct / a local copy of the reference
+    return bool(fs) and fs[-1][3] == field and fs[-1][1] == "options::Options" and t[1][0] in ("arg", "local", "proj")
 
 
 def _serde_name_uses(r, R, format_site):
